@@ -186,3 +186,9 @@ pub fn __slice_next_back<'a>(s: &'a [u64]) -> (r: (Option<&'a u64>, &'a [u64]))
 pub fn __usize_cmp(a: usize, b: usize) -> (r: core::cmp::Ordering)
     ensures r == (if a < b { core::cmp::Ordering::Less } else if a == b { core::cmp::Ordering::Equal } else { core::cmp::Ordering::Greater })
 { unimplemented!() }
+
+//@ assume __u64_cmp : rule R16v: std `Ord::cmp` on u64 is the numeric order
+#[verifier::external_body]
+pub fn __u64_cmp(a: u64, b: u64) -> (r: core::cmp::Ordering)
+    ensures r == (if a < b { core::cmp::Ordering::Less } else if a == b { core::cmp::Ordering::Equal } else { core::cmp::Ordering::Greater })
+{ unimplemented!() }
